@@ -236,6 +236,20 @@ func (d *regDriver) Call(ip *absint.Interp, site ssa.CallInstruction, args []abs
 	if cal == nil {
 		return nil, false
 	}
+	if d.c.InScope(cal) && cal.Signature.Recv() != nil && pureTextFn(d.c, cal, 0) {
+		return &absint.Opaque{Why: "text of " + cal.Name()}, true // a rendering for a log line: reads and formats only
+	}
+	if full := cal.String(); strings.HasPrefix(full, "(*sync/atomic.") {
+		// counters of the registry's own: written blindly; a value read from one is unknown (a registry that decides
+		// anything by it leaves the model at that branch)
+		switch cal.Name() {
+		case "Store":
+			return nil, true
+		case "Add", "Load", "Swap":
+			return &absint.Opaque{Why: "atomic counter"}, true
+		}
+		panic(&absint.Undecided{Msg: full + " is not in the cell model"})
+	}
 	if full := cal.String(); strings.HasPrefix(full, "(*sync.Mutex).") || strings.HasPrefix(full, "(*sync.RWMutex).") {
 		return nil, true // histories are sequential: a lock of the registry's own has no effect on them
 	}
@@ -316,6 +330,9 @@ func (d *regDriver) Call(ip *absint.Interp, site ssa.CallInstruction, args []abs
 func (d *regDriver) Field(ip *absint.Interp, obj *absint.Tok, name string, typ types.Type) absint.Value {
 	if obj != d.recv && strings.HasPrefix(obj.ID, d.recv.ID+".") && obj.Class == "field" {
 		return nil // a part of the registry's own state held in a nested struct: cells are named by their path
+	}
+	if obj != d.recv && (obj.Attr["zeroed"] != nil || (obj.Class == "struct" && strings.HasPrefix(obj.ID, "struct#"))) {
+		return nil // an object the registry's own code has built (a row of a table of its own): unset fields are zero
 	}
 	if obj != d.recv {
 		// the protocol is payload-agnostic: a registry that looks inside the definitions / factories it stores
